@@ -412,6 +412,17 @@ func runHistory(dir string, seed uint64, spec PropSpec, shipped string) (*Case, 
 	n := 1 + r.Intn(spec.Profile.MaxOps)
 	for k := 0; k < n && e.f != nil; k++ {
 		op := g.nextOp(e.f)
+		scriptedFault := false
+		if spec.Profile.Faults && spec.Profile.Queries > 0 && e.ctl != nil && !truncated {
+			// (query campaigns) an image down to its last one or two objects whose zeroing delete is
+			// refused by the store while the zeros are being written, possibly again and again: the
+			// queries that follow are still answered from the table, which still holds the object
+			if in := inspect(e.f); len(in.ids) >= 1 && len(in.ids) <= 2 && r.Chance(1, 3) {
+				op = &Op{Kind: "del", T: g.topt(), Sel: Sel{Kind: "id", N: int64(pick(r, in.ids))}, Zero: true}
+				scriptedFault = true
+				g.count("op:zeroing-delete-of-one-of-the-last-objects-refused-by-the-store")
+			}
+		}
 		if op.Kind == "ftrunc" {
 			truncated = true
 		}
@@ -421,7 +432,7 @@ func runHistory(dir string, seed uint64, spec PropSpec, shipped string) (*Case, 
 				hdr0 = append([]byte(nil), b[:128]...)
 			}
 		}
-		if spec.Profile.Faults && isMutator(op.Kind) && e.ctl != nil && !truncated && r.Chance(1, 4) {
+		if spec.Profile.Faults && isMutator(op.Kind) && e.ctl != nil && !truncated && (scriptedFault || r.Chance(1, 4)) {
 			// the backing store fails one of this operation's calls (chosen among those a dry run on
 			// a copy shows it issues); the history goes on with the same handle
 			if evs := e.dryRunCalls(op); len(evs) > 0 {
@@ -430,6 +441,9 @@ func runHistory(dir string, seed uint64, spec PropSpec, shipped string) (*Case, 
 					if !(ev.Kind == "write" && len(ev.P) == 0) {
 						ks = append(ks, k+1)
 					}
+				}
+				if scriptedFault && len(ks) > 2 {
+					ks = ks[:2] // the seek or the write of the zeroing pass
 				}
 				if len(ks) > 0 {
 					op.FaultAt = pick(r, ks)
